@@ -352,10 +352,10 @@ def rule_f(ctx):
     if ctx.check(len(hb) == 1, "C05-F", "closing-rule", b.span, b.id, ""):
         ctx.check(unreachable_without_edges(b, hb[0][0], cut), "C05-F", "closing-rule-only-under-draw_borders", hb[0][1]["span"], b.id, "")
     sub = b.calls(lambda cd, t: ends(cd, RTRAIT + "append_subrender"))
-    if ctx.check(len(sub) == 1, "C05-F", "cells-appended", b.span, b.id, ""):
-        k = sub[0][1]["args"][2]
-        at = b.atoms(k)
-        ctx.check(has_call(at, "std::iter::repeat") and ("const", '""') in at, "C05-F", "cells-unprefixed", sub[0][1]["span"], b.id, "")
+    if ctx.check(len(sub) >= 1, "C05-F", "cells-appended", b.span, b.id, ""):
+        for sbb, st_ in sub:  # one call in a loop, or the first cell peeled off in front of the loop: all unprefixed
+            at = b.atoms(st_["args"][2])
+            ctx.check(has_call(at, "std::iter::repeat") and ("const", '""') in at, "C05-F", "cells-unprefixed", st_["span"], b.id, "")
     # add_horizontal_border spans self.width
     ahb = F.one(RTRAIT + "add_horizontal_border")
     nb = ahb.calls(lambda cd, t: ends(cd, "BorderHoriz::<T>::new"))
@@ -399,7 +399,7 @@ def rule_h(ctx):
                           "the top rule gets the full renderer width on a path that is not the stacked layout")
                 continue
             ex = wnorm(b.canon(o, env=env))
-            okf = re.fullmatch(r"\(Iterator::sum\(Iterator::cloned\(<impl \[T\]>::iter\(&<std::vec::Vec<T, A> as std::ops::Deref>::deref\(&%s\)\)\)\) \+ "
+            okf = re.fullmatch(r"\(Iterator::sum\(<impl \[T\]>::iter\(&<std::vec::Vec<T, A> as std::ops::Deref>::deref\(&%s\)\)\) \+ "
                                r"<impl usize>::saturating_sub\(<std::iter::Filter<I, P> as std::iter::Iterator>::count\(Iterator::filter\("
                                r"<impl \[T\]>::iter\(&<std::vec::Vec<T, A> as std::ops::Deref>::deref\(&%s\)\), render_table_tree::\{closure\}\{\}\)\), 1_usize\)\)"
                                % (wsym, wsym), ex) is not None
